@@ -71,6 +71,22 @@ impl log4rs::config::Deserialize for AtFilterDeserializer {
     }
 }
 
+/// The spelling of a refresh rate in the document and what it means (durations in the notation the documentation points
+/// to: whole seconds as in its examples, and minutes, milli-, micro- and nanoseconds, also combined).
+pub fn refresh_form(r: u32) -> (String, std::time::Duration) {
+    use std::time::Duration as D;
+    let n = r as u64;
+    match r % 8 {
+        0 | 1 => (format!("{} seconds", n), D::from_secs(n)),
+        2 => (format!("{}s", n), D::from_secs(n)),
+        3 => (format!("{}ms", n), D::from_millis(n)),
+        4 => (format!("{}us", n), D::from_micros(n)),
+        5 => (format!("{}ns", n), D::from_nanos(n)),
+        6 => (format!("1h {}m", n), D::from_secs(3600 + 60 * n)),
+        _ => (format!("{}ms {}us", n, n), D::from_millis(n) + D::from_micros(n)),
+    }
+}
+
 /// The library's default deserializers plus the user-defined filter kind.
 pub fn deserializers() -> Deserializers {
     let mut d = Deserializers::default();
@@ -423,7 +439,7 @@ pub fn app_doc(dir: &str, a: &LApp, style: u64) -> DV {
 pub fn document(dir: &str, lc: &LC, style: u64) -> DV {
     let mut top: Vec<(&str, DV)> = vec![];
     if let Some(r) = lc.refresh {
-        top.push(("refresh_rate", DV::Str(format!("{} seconds", r))));
+        top.push(("refresh_rate", DV::Str(refresh_form(r).0)));
     }
     let mut root = vec![];
     // the root level default is not asserted (documentation says warn, code says debug): always written
@@ -698,7 +714,7 @@ fn check_in(base: &Path, case: &Case, obs: &mut Obs) -> CaseResult {
             Ok(Err(e)) => return fail("C14:valid-document-rejected", format!("{} rejected: {}\n{}", what, e, text)),
             Ok(Ok(r)) => r,
         };
-        ensure!(raw.refresh_rate() == lc.refresh.map(|s| std::time::Duration::from_secs(s as u64)), "C14:refresh-rate", "{}: refresh rate {:?}, document says {:?} seconds", what, raw.refresh_rate(), lc.refresh);
+        ensure!(raw.refresh_rate() == lc.refresh.map(|r| refresh_form(r).1), "C14:refresh-rate", "{}: refresh rate {:?}, document says {:?}", what, raw.refresh_rate(), lc.refresh.map(|r| refresh_form(r).0));
         // lossy path = load_config_file
         let loaded = match catch(|| log4rs::config::load_config_file(&file, deserializers())) {
             Err(p) => return fail("C14:panic:load", format!("load_config_file panicked on a {}: {}\n{}", what, p, text)),
@@ -1313,7 +1329,7 @@ pub fn replay(part: &str, case: serde_json::Value) -> Option<CaseResult> {
 pub fn meta() -> EvidenceMeta {
     EvidenceMeta {
         level: "exploration",
-        rule: "part documents: logical configurations (cfgtree routing; 1-5 appenders of kinds file / rolling_file (size, time, onstartup triggers; delete or fixed_window rollers incl. .gz and directory patterns; policy kind present/omitted) / console (presence only); encoders pattern (kind key and pattern present/omitted) or json; 0-2 threshold filters per appender, or chains of 1-4 filters mixing threshold filters with a user-defined kind registered through Deserializers::insert that accepts/rejects records of one level (order-sensitive); optional refresh_rate; every defaultable key present or omitted; level words in three letter cases) rendered by three hand-written emitters (YAML block/flow mix, JSON, TOML inline/section/sub-section mix) with generated key order; oracle: serde parse and load_config_file succeed, refresh rate and Config accessors equal the logical configuration, and after 15-25 probe records the directory snapshot (clock/thread fields normalised, archives decompressed) equals that of a programmatic twin built with the public builders and documented defaults, for each of the three formats (the configured path may be a symbolic link to a file with another extension: the format is that of the configured name); file appenders are additionally compared with the route()+filter model. part mutants: one mutation of a rendered document (unknown key in document/root/logger/appender/encoder/policy/trigger/roller, wrong-typed value, unknown kind, missing required field, broken filter, dangling appender name, degenerate numerics, malformed text after the complete document) in a generated format; oracle by layer: document-level => rejected by both paths; component-level => document parses, strict path reports an error naming exactly that appender, lossy loading returns the configuration without it (references stripped / filter dropped) and its behaviour equals the twin without the broken part; dangling => strict fails naming it, lossy strips; degenerate numerics => no panic at load or while logging. Ten clock-free patterns (empty, line breaks after {n}, blanks, nested groups); unknown keys carry a number, null, empty string, empty list or empty map; probes alternate between records with and without module path/file/line; the strict path is log4rs::config::create_raw_config. non-trivial = >= 2 appender kinds with a defaulted key (documents); any mutation below the document layer (mutants)".into(),
+        rule: "part documents: logical configurations (cfgtree routing; 1-5 appenders of kinds file / rolling_file (size, time, onstartup triggers; delete or fixed_window rollers incl. .gz and directory patterns; policy kind present/omitted) / console (presence only); encoders pattern (kind key and pattern present/omitted) or json; 0-2 threshold filters per appender, or chains of 1-4 filters mixing threshold filters with a user-defined kind registered through Deserializers::insert that accepts/rejects records of one level (order-sensitive); optional refresh_rate (seconds, minutes, milli-, micro- and nanoseconds, combined forms); every defaultable key present or omitted; level words in three letter cases) rendered by three hand-written emitters (YAML block/flow mix, JSON, TOML inline/section/sub-section mix) with generated key order; oracle: serde parse and load_config_file succeed, refresh rate and Config accessors equal the logical configuration, and after 15-25 probe records the directory snapshot (clock/thread fields normalised, archives decompressed) equals that of a programmatic twin built with the public builders and documented defaults, for each of the three formats (the configured path may be a symbolic link to a file with another extension: the format is that of the configured name); file appenders are additionally compared with the route()+filter model. part mutants: one mutation of a rendered document (unknown key in document/root/logger/appender/encoder/policy/trigger/roller, wrong-typed value, unknown kind, missing required field, broken filter, dangling appender name, degenerate numerics, malformed text after the complete document) in a generated format; oracle by layer: document-level => rejected by both paths; component-level => document parses, strict path reports an error naming exactly that appender, lossy loading returns the configuration without it (references stripped / filter dropped) and its behaviour equals the twin without the broken part; dangling => strict fails naming it, lossy strips; degenerate numerics => no panic at load or while logging. Ten clock-free patterns (empty, line breaks after {n}, blanks, nested groups); unknown keys carry a number, null, empty string, empty list or empty map; probes alternate between records with and without module path/file/line; the strict path is log4rs::config::create_raw_config. non-trivial = >= 2 appender kinds with a defaulted key (documents); any mutation below the document layer (mutants)".into(),
         assumptions: vec![
             "root level default and loggers without a level are not generated (documentation and code disagree / statement silent)".into(),
             "console appenders are declared but attached only to a logger that is off (their bytes are C18's business)".into(),
